@@ -90,6 +90,34 @@ if tool == 'colander':
         if d:
             bad.append(f"the strained plotfile of {os.path.basename(r)}: {d}")
 
+elif tool == 'chef':
+    # two cooks in one process, in parallel mode (the real worker pool of the first cook may still be there for the second):
+    # same relative names, another recipe file, other data
+    from amr_kitchen.chef import Chef                 # noqa: E402
+    from harness.props import c11                     # noqa: E402
+    pfs = two_plotfiles()
+    keys = c01.reader_keys(pfs[0].fields)
+    a = keys[0]
+    sources = ['def recipe(field_indexes, box_array):\n    """doubled"""\n    return 2.0 * box_array[..., field_indexes[%r]]\n' % a,
+               'def recipe(field_indexes, box_array):\n    """shifted"""\n    return box_array[..., field_indexes[%r]] + 100.0\n' % a]
+    for r, pf, src in zip(runs, pfs, sources):
+        os.chdir(r)
+        diskimg.write_image(diskimg.image_of(pf), 'plt00010')
+        with open('recipe.py', 'w') as f:
+            f.write(src)
+        res = outcome(lambda: Chef(plotfile='plt00010', recipe='recipe.py', outfile='cooked', kept_fields=a, serial=False).cook())
+        if res[0] != 'ok':
+            bad.append(f"chef with relative paths in {os.path.basename(r)} raised: {res[1]}")
+    for r, pf, name in zip(runs, pfs, ('doubled', 'shifted')):
+        fn = c11.load_recipe(os.path.join(r, 'recipe.py'))
+        want, _ = c14.pure_chef(pf, fn, [name], a)
+        try:
+            d = c14.contents_match(oracle.contents_of_image(oracle.read_image(os.path.join(r, 'cooked'))), want)
+        except Exception as e:      # noqa
+            d = f"output is not a well-formed plotfile: {type(e).__name__}: {e}"
+        if d:
+            bad.append(f"the cooked plotfile of {os.path.basename(r)} (recipe '{name}'): {d}")
+
 elif tool == 'combine':
     pfs = two_plotfiles('onefile')        # every level in one binary file, shuffled: with the sibling's other order, the by-offset mode
     seconds = []
